@@ -1,6 +1,6 @@
 (* Main.v — request dispatcher of the extracted model binary: one s-expression request per line,
    one s-expression answer per line. Definitions only. *)
-From FV Require Import Base AddrRange RouteMap Graph Netlist Hw Check Jobs Desc Build Paths Compile Routing Emit.
+From FV Require Import Base AddrRange RouteMap Graph Netlist Hw Check Jobs Desc Build Paths Compile Routing Emit Side.
 
 Definition sx_expected (x : sx) : res (string * (Z * Z)) :=
   match x with
@@ -99,6 +99,15 @@ Definition dispatch (cmd : string) (args : list sx) : res sx :=
              | Err e => Ok (L [A "err"; A (sanitize e)])
              end
     | _ => Err "model-graph: arity"
+    end
+  else if str_eqb cmd "side" then
+    (* (side <description tree>) -> (ok #t/#f ...) | (err): the side conditions of the hardware-level theorems *)
+    match args with
+    | [x] => match (do d <- parse_desc (yv_of_sx x); side_conditions d) with
+             | Ok bs => Ok (L (A "ok" :: map (fun b : bool => A (if b then "#t" else "#f")) bs))
+             | Err e => Ok (L [A "err"; A (sanitize e)])
+             end
+    | _ => Err "side: arity"
     end
   else if str_eqb cmd "nl-echo" then
     match args with [x] => do n <- sx_netlist x; Ok (x_netlist n) | _ => Err "nl-echo: arity" end
